@@ -44,6 +44,16 @@ CHECKS = {
               "validated against the machine by TLC (Trace_Rollout). RepeatedStepper/ForcedStepper/build_ic_set are compared with python loops "
               "over every public stepper class."),
         note="TLC, dump parser, injectivity of the bookkeeping stepper, jax.disable_jit / ordered debug callbacks for call logging"),
+    "C20": dict(
+        category="model_checking", design_ref="4/C20", engine="validate",
+        technique="TLC decision tables (MC_Validate) replayed into every public class + TLC trace validation (Trace_Validate) of hook-recorded __call__ decisions (own drivers and the repository's tests)",
+        text=("MC_Validate decides for every (target kind, D, N, C) and every shape mutation (channel count, extra/missing axes, one or all axis lengths, "
+              "length-1 axes) whether the call must be accepted, with invariants 'exactly the expected shape is accepted' and 'every mutant is rejected', "
+              "and evaluates the documented restriction table (dimension-restricted classes and nonlinear terms, order parities, argument lengths, "
+              "scaling modes, metric modes, generator flag combinations, window lengths). Every state is replayed into every public stepper class "
+              "enumerated from the exports (plus RepeatedStepper and Poisson), every row is executed against the API, and the decisions the hooks "
+              "observed in this run and in the repository's own tests are validated by TLC against the same Decide function."),
+        note="TLC, the EXPONAX_VERIF hooks at __call__ boundaries, transcription of the documented restrictions; classes are enumerated at run time"),
 }
 
 NOT_APPLICABLE = {
@@ -91,6 +101,8 @@ def main():
              "kind_free_text": "TLC symbol tables + behaviours, spec->code replay"},
             {"name": "etdrk", "path": "spec/Tableau.tla spec/MC_ETDRK.tla spec/Trace_ETDRK.tla harness/etdrk.py harness/checks/c02.py", "serves_properties": ["C02"],
              "kind_free_text": "TLC symbolic stage machine + coefficient cover + trace validation"},
+            {"name": "validate", "path": "spec/MC_Validate.tla spec/Trace_Validate.tla harness/checks/c20.py", "serves_properties": ["C20"],
+             "kind_free_text": "TLC decision tables + replay + hook-trace validation"},
             {"name": "rollout", "path": "spec/MC_Rollout.tla spec/Trace_Rollout.tla harness/checks/c14.py", "serves_properties": ["C14"],
              "kind_free_text": "TLC state machine + replay + trace validation"},
         ],
